@@ -23,7 +23,7 @@ RULE = ("one case = one base frame (labels int or str: unsorted, repeated, uniqu
         "row gets records and some label of the flat table is repeated or absent")
 ASSUMPTIONS = ["row set and order of right/inner/outer joins = pandas DataFrame.join of the base frame with a frame indexed by the distinct flat labels"]
 CORRESPONDENCE = "m_join_plan / m_add_nested_left / m_from_flat (Frame.v) vs NestedFrame.add_nested / from_flat"
-EXTRA_IMPORTS = "Frame"
+EXTRA_IMPORTS = "Frame Dtype Names Glue"
 
 
 def gen_labels_pair(rng, nb, nflat):
@@ -163,18 +163,40 @@ def generate(ctx):
                                                      index=base.index).array for name, t in schema}}, index=base.index)
                 repeated = len(set(base_labels)) != len(base_labels)
 
+                # which columns are packed and which stay (Glue.m_from_lists_columns): the four ways of naming them
+                mode = rng.choice(["both", "both", "base_only", "lists_only", "neither"]) if op == "from_lists" else "both"
+                fl_kw = {"both": dict(base_columns=["x"], list_columns=names), "base_only": dict(base_columns=["x"]),
+                         "lists_only": dict(list_columns=names), "neither": {}}[mode]
+                df_in = df if mode != "neither" else df[names]
+
                 def run_l():
                     if op == "from_lists":
-                        out = NestedFrame.from_lists(df, base_columns=["x"], list_columns=names, name="n")
+                        out = NestedFrame.from_lists(df_in, name="n", **fl_kw)
                     else:
                         out = df.nest_lists("n", names)
                     assert isinstance(out, NestedFrame), "not a NestedFrame"
                     assert [repr(v) for v in out.index] == [repr(v) for v in base_labels], "not one output row per input row"
-                    assert [int(v) for v in out["x"]] == list(range(nb))
+                    if mode != "neither":
+                        assert [int(v) for v in out["x"]] == list(range(nb))
+                    out_cols[0] = [str(c) for c in out.columns]
+                    assert list(out["n"].nest.fields) == names, "the packed fields are not the list columns in their order"
                     return fo.rows_rm(out["n"].array.chunked_array)
+                out_cols = [None]
                 res = attempt(run_l)
                 want = [[[lists[nm][j][k] for nm in names] for k in range(lens[j])] for j in range(nb)]
-                term = f"(chk_rows (Ok {fo.cq_nrows(want)}) (Ok {fo.cq_nrows(want)}) {fo.cq_res_nrows(res)})"
+                def cq_s(x):
+                    return "[" + "; ".join(str(ord(ch)) for ch in x) + "]"
+
+                def cq_sl(xs):
+                    return "None" if xs is None else f"(Some {cq_list(cq_s(x_) for x_ in xs)})"
+                glue = "true"
+                if op == "from_lists" and out_cols[0] is not None:
+                    glue = (f"match m_from_lists_columns {cq_list(cq_s(str(c)) for c in df_in.columns)} {cq_sl(fl_kw.get('base_columns'))} "
+                            f"{cq_sl(fl_kw.get('list_columns'))} with Ok (b, l) => list_eqb str_eqb (m_from_lists_result b {cq_s('n')}) "
+                            f"{cq_list(cq_s(c) for c in out_cols[0])} && list_eqb str_eqb l {cq_list(cq_s(c) for c in names)} | Err => false end")
+                term = (f"(match chk_rows (Ok {fo.cq_nrows(want)}) (Ok {fo.cq_nrows(want)}) {fo.cq_res_nrows(res)} with "
+                        f"[a; b; c; s] => [a && {glue}; b; c; s] | l => l end)")
+                args.update(columns_named=mode)
                 nontrivial = nb > 0
                 args.update(repeated_labels=repeated)
             cases.append({
